@@ -12,9 +12,12 @@
 (*   coba/random.py               via CobaRandom.tla (real constants)      *)
 (*                                                                         *)
 (* A filter object is read any number of times (once per learner in an     *)
-(* experiment): ONE action, Read, per call of filter(); what a read        *)
-(* returns is a function of the constructor parameters and the input only  *)
-(* (never of earlier reads).  The input is a finite interaction sequence;  *)
+(* experiment) and one object may sit in several pipelines                 *)
+(* (Environments.filter joins the SAME object to every environment): ONE   *)
+(* action, Read(inp, o), per call of filter(); what it returns is a        *)
+(* function of the constructor parameters and of its own input only (never *)
+(* of earlier reads or earlier inputs - see Read).                         *)
+(* The input is a finite interaction sequence;                             *)
 (* the specification works on POSITIONS 1..N ("ids") - every operator      *)
 (* below returns a sequence of positions of the input, which is the        *)
 (* sentence "none of these filters alters the content of any interaction": *)
@@ -171,7 +174,7 @@ SortedStable(o, ks) == \A a, b \in DOMAIN o : a < b =>
                           /\ (ks[o[a]] = ks[o[b]] => o[a] < o[b])
 
 (***************************************************************************)
-(* One case, read repeatedly                                               *)
+(* One filter object, applied repeatedly - to the same input and to others *)
 (***************************************************************************)
 NIn(c) == CASE c.f = "where" -> Len(c.inp.nacts) [] c.f = "sort" -> Len(c.inp.ctxs) [] OTHER -> c.inp.n
 Exact(c) == IF c.f = "reservoir" THEN ReservoirExact(c.inp.n, c.p) ELSE TRUE
@@ -184,18 +187,40 @@ Result(c) == LET xs == Ids(NIn(c)) IN
     [] c.f = "ident"     -> xs          \* Identity, Cache, Chunk, Params, Unbatch after Batch(k): the sequence itself
     [] c.f = "where"     -> Where(c.p, c.inp)
     [] c.f = "sort"      -> Sort(c.p, c.inp)
-(* what a read may return *)
+(* what an application may return *)
 Accepts(c, o) == IF Exact(c) THEN o = Result(c) ELSE ReservoirAccepts(c.inp.n, c.p, o)
 
-VARIABLES case,    \* the filter object (its parameters) and the input it is applied to
+VARIABLES case,    \* [f, p] = the filter object (its constructor parameters); inp = the input of its latest application
           reads,   \* number of filter() calls made on that object so far
-          out      \* what the latest call returned (positions of the input)
-vars == <<case, reads, out>>
-(* filter(): the o-th read returns an acceptable output, and the SAME output as every read before it
-   ("fully determined by the seed": not by how often the object has been read) *)
-Read(o) == /\ Accepts(case, o)
-           /\ (reads > 0 => o = out)
-           /\ out' = o /\ reads' = reads + 1 /\ UNCHANGED case
+          out,     \* what the latest call returned (positions of ITS input)
+          seen     \* history: <<[inp, out], ...>> of every application of this object so far
+vars == <<case, reads, out, seen>>
+(***************************************************************************)
+(* filter(inp) on the object [case.f, case.p].                             *)
+(* THE RULE: the result of an application is a function of the filter's    *)
+(* constructor parameters and of ITS OWN input only - not of how often the *)
+(* object has been read, and not of any other sequence the same object     *)
+(* (or the same object shared by several Environments pipelines) filtered  *)
+(* before.  Where the result is computed (Exact) this holds by             *)
+(* construction: Result reads [f, p, inp] and nothing else.  Where it is   *)
+(* only constrained (Reservoir, Algorithm L) the second conjunct says it:  *)
+(* whenever this input was applied before - immediately before or with     *)
+(* other inputs in between - the same output comes back.                   *)
+(* A filter keeps nothing from one application to the next.  (The one      *)
+(* deliberate exception in coba is a Cache OBJECT, which memoises its      *)
+(* upstream source: a Cache is an identity on the sequence of the          *)
+(* pipeline it sits in - every application to that sequence - and is not   *)
+(* applied to a second source; Environments.cache() / chunk() create one   *)
+(* Cache per environment.)                                                 *)
+(***************************************************************************)
+Read(inp, o) ==
+  LET c == [f |-> case.f, p |-> case.p, inp |-> inp] IN
+  /\ Accepts(c, o)
+  /\ \A i \in DOMAIN seen : seen[i].inp = inp => seen[i].out = o
+  /\ case' = c /\ out' = o /\ reads' = reads + 1
+  /\ seen' = Append(seen, [inp |-> inp, out |-> o])
+(* the rule as a state invariant over the history *)
+OwnInputOnly == \A i, j \in DOMAIN seen : seen[i].inp = seen[j].inp => seen[i].out = seen[j].out
 
 (***************************************************************************)
 (* Design-level facts, checked by TLC on every case after every read       *)
